@@ -1,44 +1,52 @@
 (** C12 — a shared UnixFd is taken at most once, closed exactly once, in any interleaving.
-    Model: Fd/Concurrent.v (one [step] = one atomic action of unixfd.rs). Proofs: Fd/ConcurrentProofs.v. *)
+    Model: Fd/Concurrent.v (one [step] = one atomic action of unixfd.rs; every UnixFd object,
+    the shared one and those returned by dup, has its own cell and strong count).
+    Proofs: Fd/ConcurrentProofs.v. [object_safe] is defined there (clauses (a), (c), (d), (e) for one object). *)
 From RB Require Import Base.Prelude Fd.Concurrent Fd.ConcurrentProofs.
 
 Local Close Scope N_scope.
 Local Open Scope nat_scope.
 
-(** For any number of threads, any programs and any schedule, at every point of the execution. *)
+(** For any number of threads, any programs (including dup calls that fail) and any schedule, at
+    every point of the execution, for the shared object (o = 0) and every object a dup created. *)
 Theorem C12_any_interleaving : forall (fd0 : Z) (progs : list (list op)) (sched : list nat),
-  fd0 <> FD_INVALID ->
+  (0 <= fd0)%Z ->
   let c := exec sched (init fd0 progs) in
-  length (successful_takes c) <= 1
-  /\ length (take_swaps c) <= 1
-  /\ length (successful_takes c) <= length (take_swaps c)
-  /\ (forall t i v, In (EvRet t i (RTake (Some v))) (trace c) -> v = fd0)
-  /\ (forall t i v, In (EvRet t i (RGet (Some v))) (trace c) -> v = fd0)
-  /\ (forall pre tk v mid t i mid2 r post,
-        trace c = pre ++ EvTakeCas tk v :: mid ++ EvStart t i :: mid2 ++ EvRet t i r :: post -> gone r)
-  /\ (forall pre t i r post, trace c = pre ++ EvRet t i r :: post -> In (EvStart t i) pre)
-  /\ length (closes c) <= 1
-  /\ (forall t fd, In (EvClose t fd) (trace c) -> fd = fd0)
-  /\ (forall t s n, In (EvDupSys t s n) (trace c) ->
-        s = fd0 /\ n <> fd0 /\ forall t' fd, In (EvClose t' fd) (trace c) -> fd <> n)
-  /\ (forall pre t fd post, trace c = pre ++ EvClose t fd :: post -> In (EvDecZero t) pre)
-  /\ length (last_drops c) <= 1
-  /\ (strong (sh c) = 0 <-> all_handles_dropped c)
-  /\ (~ all_handles_dropped c -> closes c = [])
-  /\ (take_swaps c <> [] -> closes c = [])
-  /\ (successful_takes c <> [] -> closes c = []).
+  1 <= length (objs (sh c)) /\ obj_fd fd0 0 = fd0
+  /\ (forall t i o v, In (EvRet t i o (RTake (Some v))) (trace c) -> v = obj_fd fd0 o)
+  /\ (forall t i o v, In (EvRet t i o (RGet (Some v))) (trace c) -> v = obj_fd fd0 o)
+  /\ (forall pre tk o v mid t i mid2 r post,
+        trace c = pre ++ EvTakeCas tk o v :: mid ++ EvStart t i o :: mid2 ++ EvRet t i o r :: post -> gone r)
+  /\ (forall pre t i o r post, trace c = pre ++ EvRet t i o r :: post -> In (EvStart t i o) pre)
+  /\ (forall t o fd, In (EvClose t o fd) (trace c) -> o < length (objs (sh c)) /\ fd = obj_fd fd0 o)
+  /\ (forall pre t o fd post, trace c = pre ++ EvClose t o fd :: post -> In (EvDecZero t o) pre)
+  /\ (forall fd, length (closes_of_fd fd c) <= 1)
+  /\ (forall t o src new, In (EvDupSys t o src new) (trace c) ->
+        src = obj_fd fd0 o /\ exists o', o' < length (objs (sh c)) /\ 0 < o' /\ new = obj_fd fd0 o')
+  /\ (forall t o src, In (EvDupFail t o src) (trace c) -> src = obj_fd fd0 o)
+  /\ (forall o, o < length (objs (sh c)) ->
+        length (successful_takes o c) <= 1
+        /\ length (take_swaps o c) <= 1
+        /\ length (successful_takes o c) <= length (take_swaps o c)
+        /\ length (closes o c) <= 1
+        /\ length (last_drops o c) <= 1
+        /\ (strong (get_obj (sh c) o) = 0 <-> all_handles_dropped o c)
+        /\ (~ all_handles_dropped o c -> closes o c = [])
+        /\ (take_swaps o c <> [] -> closes o c = [])
+        /\ (successful_takes o c <> [] -> closes o c = [])).
 Proof. exact c12_safety. Qed.
 Print Assumptions C12_any_interleaving.
 
 (** After the schedule and the run-to-completion phase, for programs that respect ownership. *)
 Theorem C12_completed_run : forall (fd0 : Z) (progs : list (list op)) (sched : list nat),
-  fd0 <> FD_INVALID -> progs <> [] -> ownership_respected progs = true ->
+  (0 <= fd0)%Z -> progs <> [] -> ownership_respected progs = true ->
   let c := run sched (init fd0 progs) in
   all_finished c = true
-  /\ (forall t i, ~ In (EvRet t i RInvalid) (trace c))
-  /\ (take_swaps c = [] -> all_handles_dropped c -> exists t, closes c = [EvClose t fd0])
-  /\ (~ all_handles_dropped c -> closes c = [])
-  /\ (take_swaps c <> [] -> length (successful_takes c) = 1 /\ closes c = []).
+  /\ (forall t i o, ~ In (EvRet t i o RInvalid) (trace c))
+  /\ (forall o, o < length (objs (sh c)) ->
+        (take_swaps o c = [] -> all_handles_dropped o c -> exists t, closes o c = [EvClose t o (obj_fd fd0 o)])
+        /\ (~ all_handles_dropped o c -> closes o c = [])
+        /\ (take_swaps o c <> [] -> length (successful_takes o c) = 1 /\ closes o c = [])).
 Proof. exact c12_complete. Qed.
 Print Assumptions C12_completed_run.
 
@@ -47,3 +55,11 @@ Theorem C12_run_is_exec : forall (sched : list nat) (c : cfg),
   run sched c = exec (sched ++ completion (exec sched c)) c.
 Proof. exact run_is_exec. Qed.
 Print Assumptions C12_run_is_exec.
+
+(** A dup(2) call that fails changes no object, no descriptor table entry and no handle. *)
+Theorem C12_failed_dup_changes_nothing : forall (t : nat) (th : thread) (s : shared) (o : nat) (v : Z),
+  pc th = DupSys o v true ->
+  objs (snd (step_thread t th s)) = objs s /\ next_fd (snd (step_thread t th s)) = next_fd s
+  /\ live (fst (step_thread t th s)) = live th.
+Proof. exact dup_fail_no_effect. Qed.
+Print Assumptions C12_failed_dup_changes_nothing.
